@@ -345,3 +345,47 @@ def count_lines(path):
         for _ in f:
             n += 1
     return n
+
+
+def run_harness_watched(args, out_trace, timeout=3000):
+    """Run a harness driver that supports --watch/--sync.  If the code under test hangs (harness exits 3) or
+    takes the whole process down (signal), the call that was running is appended to the trace as a "crash" event
+    (for the latter the driver is re-run in --sync mode to learn which call it was) and judged by the trace
+    specification like any other event.  Returns (stdout, crashed)."""
+    wf = out_trace + ".watch"
+    p = subprocess.run([HARNESS] + args + ["--watch", wf], stdout=subprocess.PIPE, stderr=subprocess.PIPE,
+                       text=True, timeout=timeout)
+    if p.returncode == 0:
+        return p.stdout, False
+    how = "hang" if p.returncode == 3 else "abort (exit status %d)" % p.returncode
+    if p.returncode != 3:
+        if p.returncode > 0:
+            log(p.stderr[-2000:])
+            raise ToolError("harness %s exited %d" % (args[0], p.returncode))
+        keep = out_trace + ".partial"
+        if os.path.exists(out_trace):
+            os.replace(out_trace, keep)
+        p2 = subprocess.run([HARNESS] + args + ["--watch", wf, "--sync"], stdout=subprocess.PIPE,
+                            stderr=subprocess.PIPE, text=True, timeout=timeout * 4)
+        if p2.returncode == 0:
+            raise ToolError("harness %s crashed once (%d) but not when re-run" % (args[0], p.returncode))
+    if not os.path.exists(wf):
+        raise ToolError("harness %s: %s without a watch record" % (args[0], how))
+    line = open(wf).read().strip()
+    ev = json.loads(line)
+    ev["how"] = how
+    # keep the complete lines of the partial trace, then the crash event
+    good = []
+    if os.path.exists(out_trace):
+        with open(out_trace, errors="replace") as f:
+            for l in f:
+                if l.endswith("\n"):
+                    try:
+                        json.loads(l)
+                        good.append(l)
+                    except ValueError:
+                        break
+    with open(out_trace, "w") as f:
+        f.writelines(good)
+        f.write(json.dumps(ev) + "\n")
+    return "", True
